@@ -108,3 +108,42 @@ def unique_tag_seq_defs(scn):
         if d['type'] == 'seq':
             tags.setdefault(d['tag'], []).append(i)
     return {t: v[0] for t, v in tags.items() if len(v) == 1}
+
+
+# --------------------------------------------------------------------------
+# two-phase model evaluation: seeker model (position) then task model
+# --------------------------------------------------------------------------
+
+def full_model(scns, drv, fidx=0):
+    """
+    For each single-file scenario: the position the file-level constraint leaves (seeker
+    model; 0 when no constraint applies) and the task model's observation from there.
+    Returns list of dict(pos, seek (driver output or None), mobs, vals).
+    """
+    from vh import seekcheck as K
+    consts = K.live_constants()
+    seek_idx, seek_cases = [], []
+    for i, scn in enumerate(scns):
+        if S.global_applies(scn, fidx) and len(S.file_bytes(scn['files'][fidx])) > 0:
+            content = S.file_bytes(scn['files'][fidx])
+            cons = scn['constraints'][scn['global']]
+            seek_idx.append(i)
+            seek_cases.append(K.seek_case(content, cons, [['apply']], consts))
+    seek_out = dict(zip(seek_idx, drv.run(seek_cases)))
+    out, tcases = [], []
+    for i, scn in enumerate(scns):
+        so = seek_out.get(i)
+        pos, err = 0, None
+        if so is not None:
+            ap = so['model']['outs'][0]['apply']
+            if 'err' in ap:
+                err = ap['err']
+            else:
+                pos = ap['pos']
+        case, intern = S.task_case(scn, fidx, start=pos)
+        tcases.append(case)
+        out.append({'pos': pos, 'seek': so, 'seek_err': err, 'vals': intern.val,
+                    'case': case})
+    for o, mo in zip(out, drv.run(tcases)):
+        o['mobs'] = mo
+    return out
